@@ -6,7 +6,7 @@ IDS="$*"; [ -z "$IDS" ] && IDS=$(ls /verif/seeded)
 cd /verif
 for id in $IDS; do
   git -C /repo apply "/verif/seeded/$id/patch.diff" || { echo "$id patch-does-not-apply"; continue; }
-  P=$(echo "$id" | sed "s/^R2//"); OUT=$(python3 check.py "$P" --tier "$TIER" 2>&1); RC=$?
+  P=$(echo "$id" | sed "s/^R[0-9]//"); OUT=$(python3 check.py "$P" --tier "$TIER" 2>&1); RC=$?
   git -C /repo checkout -- .
   V=$(echo "$OUT" | grep -m1 '^VIOLATION' || echo "no alarm")
   echo "$id rc=$RC $V"
